@@ -25,16 +25,24 @@ def names_equal(a, b):
     return len(a) == len(b) and all([fold(x) == fold(y) for x, y in zip(a, b)])
 
 
-def sections_equal(m, p):
-    """Same rrsets (name, class, type, covers, members) AND the same TTLs in every section."""
+def sections_equal(m, p, strict=True):
+    """Same rrsets (name, class, type, covers, members) AND the same TTLs in every section.
+    strict: library equality of the rrset objects; otherwise equality of what they mean on the wire
+    (owner, class as rendered, type, TTL, records)."""
     for s1, s2 in ((m.question, p.question), (m.answer, p.answer), (m.authority, p.authority), (m.additional, p.additional)):
         if len(s1) != len(s2):
             return False
         for a, b in zip(s1, s2):
-            if a != b or a.ttl != b.ttl or a.rdclass != b.rdclass or a.rdtype != b.rdtype:
+            if strict:
+                if a != b or a.rdclass != b.rdclass or getattr(a, "deleting", None) != getattr(b, "deleting", None):
+                    return False
+            wc_a = a.deleting if getattr(a, "deleting", None) is not None else a.rdclass
+            wc_b = b.deleting if getattr(b, "deleting", None) is not None else b.rdclass
+            if a.name != b.name or int(wc_a) != int(wc_b) or a.rdtype != b.rdtype or a.ttl != b.ttl or len(a) != len(b):
                 return False
-            if getattr(a, "deleting", None) != getattr(b, "deleting", None):
-                return False
+            for rd in a:
+                if rd not in b:
+                    return False
     return True
 
 
@@ -67,7 +75,8 @@ def h03a(mid: int, flags: int, rcode: int, version: int, eflags: int, payload: i
     m.flags = dns.flags.Flag(flags)
     m.set_opcode(dns.opcode.Opcode(opcode))
     with concrete():
-        q = dns.rrset.RRset(dns.name.from_text("www.example."), IN, dns.rdatatype.A)
+        # (the zone section of an UPDATE must be of type SOA)
+        q = dns.rrset.RRset(dns.name.from_text("www.example."), IN, dns.rdatatype.SOA if opcode == 5 else dns.rdatatype.A)
         a = dns.rrset.from_text("www.example.", 0, "IN", "A", "10.0.0.1", "10.0.0.2")
     a.ttl = ttl
     m.question.append(q)
@@ -95,17 +104,32 @@ def h03a(mid: int, flags: int, rcode: int, version: int, eflags: int, payload: i
 
 
 def h03a_pre(mid, flags, rcode, version, eflags, payload, optcode, optdata, ttl):
+    # one group of fields is symbolic per shard, the others are pinned (the joint query is too hard for z3)
+    vary = S("vary")
+    if vary != "header" and not (mid == 0x1234 and flags == 0x8180):
+        return False
+    if vary != "rcode" and rcode != 3:
+        return False
+    if vary != "edns" and S("edns") and not (version == 0 and eflags == 0x8000 and payload == 1232):
+        return False
+    if vary != "option" and not (ttl == 300 and (not S("edns") or (optcode == 3 and optdata == b"n"))):
+        return False
     ok = 0 <= mid <= 65535 and 0 <= flags <= 65535 and 0 <= ttl <= 2**31 - 1
     if S("edns"):
         # extended rcodes need EDNS; version lives in bits 16-23 of the EDNS flags word
         return (ok and 0 <= rcode <= 4095 and 0 <= version <= 255 and 0 <= eflags <= 65535 and 0 <= payload <= 65535
-                and optcode in (3, 10, 65001) and len(optdata) <= 2)
+                and optcode in (3, 12, 65001) and len(optdata) <= 2)
     return ok and 0 <= rcode <= 15 and version == 0 and eflags == 0 and payload == 0 and optcode == 0 and len(optdata) == 0
 
 
 def h03a_shards(tier):
-    ops = (0, 4, 5) if tier == "quick" else range(16)
-    return [{"opcode": o, "edns": e, "_timeout": 900, "_path_timeout": 60} for o in ops for e in (False, True) if not (o == 5 and False)]
+    ops = (0, 5) if tier == "quick" else range(16)
+    out = []
+    for o in ops:
+        for e in (False, True):
+            for vary in ("header", "rcode", "option") + (("edns",) if e else ()):
+                out.append({"opcode": o, "edns": e, "vary": vary, "_timeout": 900, "_path_timeout": 120})
+    return out
 
 
 # ---------------------------------------------------------------- H03b sharing patterns: compression soundness
@@ -196,7 +220,7 @@ def h03d(o1: int, n1: int, r1: int, o2: int, n2: int, r2: int, ttl: int) -> bool
     hit("parsed")
     if not isinstance(p, dns.update.UpdateMessage) or int(p.opcode()) != 5:
         return False
-    if not sections_equal(u, p):
+    if not sections_equal(u, p, strict=S("strict")):
         return False
     if counts_match(wire, u) is None:
         return False
@@ -210,10 +234,15 @@ def h03d_pre(o1, n1, r1, o2, n2, r2, ttl):
     return ok and o2 == 0 and n2 == 0 and r2 == 0
 
 
+CLASSLESS_FORMS = (1, 5, 6, 8, 9)  # delete(name), present(name), present(name, type), absent(name), absent(name, type)
+
+
 def h03d_shards(tier):
-    out = [{"n": 1, "o1": None, "_timeout": 900, "_path_timeout": 60}]
-    for o1 in ((0, 3, 7) if tier == "quick" else range(10)):
-        out.append({"n": 2, "o1": o1, "_timeout": 1200, "_path_timeout": 60})
+    out = []
+    for strict in (True, False):
+        out.append({"n": 1, "o1": None, "strict": strict, "_timeout": 900, "_path_timeout": 60})
+        for o1 in ((0, 3, 7) if tier == "quick" else range(10)):
+            out.append({"n": 2, "o1": o1, "strict": strict, "_timeout": 1200, "_path_timeout": 60})
     return out
 
 
@@ -255,7 +284,7 @@ HARNESSES = [
                      "dns.message.Message.set_rcode", "dns.message.Message.set_opcode", "dns.rcode.from_flags", "dns.rcode.to_flags",
                      "dns.opcode.from_flags", "dns.opcode.to_flags", "dns.message._WireReader.read", "dns.message._WireReader._get_section",
                      "dns.rdataset.Rdataset.to_wire"],
-            bound="id, flags (16 bit), rcode (0..15 without EDNS, 0..4095 with), EDNS version/flags/payload (8/16/16 bit), one option (3 codes, <= 2 octets), answer TTL 0..2^31-1, all symbolic; opcode per shard (quick 0,4,5; thorough 0..15)",
+            bound="one group symbolic per shard, the rest pinned: {id, flags (16 bit each)} | {rcode 0..15 without EDNS, 0..4095 with} | {EDNS version 8 bit, flags 16 bit, payload 16 bit} | {one option (3 codes, <= 2 octets), answer TTL 0..2^31-1}; opcode per shard (quick QUERY, UPDATE; thorough 0..15)",
             stubs=["E1", "E5", "E6", "E8", "E12"], outside="several options; TSIG (C14)"),
     Harness("H03b", h03b, h03b_pre, lambda tier: [{"layout": i, "_timeout": 1200, "_path_timeout": 60} for i in ((0, 1) if tier == "quick" else (0, 1, 2))],
             kind="universal", encodes=["dns.name.Name.to_wire", "dns.renderer.Renderer.add_rrset", "dns.renderer.Renderer.add_question",
